@@ -239,11 +239,12 @@ func runProp(prop string) (code int) {
 	st := rep.stats()
 	fmt.Printf("ctylint: property=%s tier=%s packages=%d rules=%d obligations=%d discharged=%d assumed=%d known-findings=%d violations=%d broken=%d wall=%.1fs\n",
 		prop, *flagTier, len(ctx.Pkgs), len(rules), st.total, st.discharged, st.assumed, st.known, viol, len(rep.BrokenMsgs), wall)
-	if len(rep.BrokenMsgs) > 0 {
-		return 2
-	}
+	// a violation that was established stands even if some other rule could not decide
 	if viol > 0 {
 		return 1
+	}
+	if len(rep.BrokenMsgs) > 0 {
+		return 2
 	}
 	return 0
 }
